@@ -551,10 +551,445 @@ example : (mpq_sub exm 4 5 2 3 4 5 6 7 8 9).ok = true ∧ valOf (mpq_sub exm 4 5
   decide +kernel
 -- negative: `MPZ_TMP_INIT (gcd, MIN (..) - 1)`: mpz_gcd has to reallocate a TMP block
 example : (mpq_aors 1 0 false exm 0 1 2 3 4 5 6 7 8 9).ok = false := by decide +kernel
--- the common-divisor arm (run only, no theorem yet): (B-1)/2 + 1/2 = (B/2)/1 — t = B needs the `+ 1` limb of
+-- the common-divisor arm (theorem `mpq_aors_common_alloc_safe` below): (B-1)/2 + 1/2 = (B/2)/1 — t = B needs the `+ 1` limb of
 -- `MPZ_TMP_INIT (t, MAX (..) + 1)`; without it mpz_add reallocates the TMP block
 example : (mpq_add exa 0 1 2 3 4 5 6 7 8 9).ok = true ∧ valOf (mpq_add exa 0 1 2 3 4 5 6 7 8 9) 0 = 2 ^ 63 ∧
     valOf (mpq_add exa 0 1 2 3 4 5 6 7 8 9) 1 = 1 := by decide +kernel
 example : (mpq_aors 0 1 false exa 0 1 2 3 4 5 6 7 8 9).ok = false := by decide +kernel
+
+/-- the values `Mpq.aors` computes in its common-divisor arm (aors.c:57-78) -/
+def aorsNum (isSub : Bool) (n1 d1 n2 d2 : Int) : Int :=
+  let G := Mpq.zgcd d1 d2
+  let T := if isSub then n1 * Mpq.divexact d2 G - n2 * Mpq.divexact d1 G else n1 * Mpq.divexact d2 G + n2 * Mpq.divexact d1 G
+  if Mpq.zgcd T G = 1 then T else Mpq.divexact T (Mpq.zgcd T G)
+def aorsDen (isSub : Bool) (n1 d1 n2 d2 : Int) : Int :=
+  let G := Mpq.zgcd d1 d2
+  let T := if isSub then n1 * Mpq.divexact d2 G - n2 * Mpq.divexact d1 G else n1 * Mpq.divexact d2 G + n2 * Mpq.divexact d1 G
+  if Mpq.zgcd T G = 1 then d2 * Mpq.divexact d1 G else Mpq.divexact d2 (Mpq.zgcd T G) * Mpq.divexact d1 G
+
+/-- mpq_add / mpq_sub, the arm for denominators with a common divisor (aors.c:53-80), rop = (rn, rd) any variable — for EVERY
+    assignment of ids in which the fields of rop differ and NUM (rop) is not a denominator field.  All four locals live in TMP
+    space and `ok` includes that none of the NINE callee calls on them reallocates: mpz_gcd (gcd ≤ MIN (den sizes) limbs, twice —
+    the second time in place, gcd (t, gcd) ≤ gcd), mpz_divexact_gcd into tmp1 / tmp2 (request ≤ ABSIZ of the denominator ≤ the
+    TMP size), mpz_mul (tmp1, num1, tmp1) in place (|num1| + |den2/gcd| ≤ |num1| + |den2|: its temporary-copy path, never the
+    fresh-block path), mpz_add / mpz_sub into t (MAX (|tmp1|, |tmp2|) + 1 limbs: exactly its request).  NUM (rop) is stored at
+    :71 / :76 and DEN (op2) read afterwards (:72 / :77).  Values: those of the C12 value model `Mpq.aors` (`aorsNum`, `aorsDen`). -/
+theorem mpq_aors_common_alloc_safe (isSub : Bool) (s : St) (rn rd an ad bn bd g t1 t2 t : Nat) (hs : s.ok = true)
+    (hop : ∀ x ∈ [rn, rd, an, ad, bn, bd], OWF (s.h x))
+    (hf : rn ≠ rd) (hna : rn ≠ ad) (hnb : rn ≠ bd)
+    (hfr : Fresh [g, t1, t2, t] [rn, rd, an, ad, bn, bd])
+    (hda : 0 < valOf s ad) (hdb : 0 < valOf s bd) (hco : Int.gcd (valOf s ad) (valOf s bd) ≠ 1) :
+    let s' := mpq_aors 0 0 isSub s rn rd an ad bn bd g t1 t2 t
+    s'.ok = true ∧ OWF (s'.h rn) ∧ OWF (s'.h rd) ∧
+    (∀ x, x ≠ rn → x ≠ rd → x ∉ [g, t1, t2, t] → s'.h x = s.h x) ∧
+    valOf s' rn = aorsNum isSub (valOf s an) (valOf s ad) (valOf s bn) (valOf s bd) ∧
+    valOf s' rd = aorsDen isSub (valOf s an) (valOf s ad) (valOf s bn) (valOf s bd) := by
+  obtain ⟨hN, hS⟩ := hfr
+  simp only [List.nodup_cons, List.mem_cons, List.not_mem_nil, or_false, not_or, List.nodup_nil, and_true, not_false_eq_true] at hN
+  obtain ⟨⟨n12, n13, n14⟩, ⟨n23, n24⟩, n34⟩ := hN
+  have S1 := hS g (by simp); have S2 := hS t1 (by simp); have S3 := hS t2 (by simp); have S4 := hS t (by simp)
+  simp only [List.mem_cons, List.not_mem_nil, or_false, not_or] at S1 S2 S3 S4
+  obtain ⟨a1, a2, a3, a4, a5, a6⟩ := S1
+  obtain ⟨b1, b2, b3, b4, b5, b6⟩ := S2
+  obtain ⟨c1, c2, c3, c4, c5, c6⟩ := S3
+  obtain ⟨d1, d2, d3, d4, d5, d6⟩ := S4
+  have Orn := hop rn (by simp); have Ord := hop rd (by simp); have Oan := hop an (by simp)
+  have Oad := hop ad (by simp); have Obn := hop bn (by simp); have Obd := hop bd (by simp)
+  obtain ⟨eda, hda1⟩ := size_toNat s ad Oad hda
+  obtain ⟨edb, hdb1⟩ := size_toNat s bd Obd hdb
+  have eda' : (s.h ad).size.toNat = (s.h ad).size.natAbs := eda
+  have edb' : (s.h bd).size.toNat = (s.h bd).size.natAbs := edb
+  -- abbreviations for the values
+  set G : Int := Mpq.zgcd (valOf s ad) (valOf s bd) with hGdef
+  have hGpos : 0 < G := by
+    show (0 : Int) < ((Int.gcd (valOf s ad) (valOf s bd) : Nat) : Int)
+    exact_mod_cast Int.gcd_pos_of_ne_zero_right _ (by omega)
+  have hG1 : G ≠ 1 := by
+    show ((Int.gcd (valOf s ad) (valOf s bd) : Nat) : Int) ≠ 1
+    exact_mod_cast hco
+  have hGad : G ∣ valOf s ad := Int.gcd_dvd_left _ _
+  have hGbd : G ∣ valOf s bd := Int.gcd_dvd_right _ _
+  have hGlt_a : G.natAbs < B ^ (s.h ad).size.natAbs :=
+    Nat.lt_of_le_of_lt (Nat.le_of_dvd (by omega) (Int.natAbs_dvd_natAbs.mpr hGad)) (valOf_lt s ad Oad)
+  have hGlt_b : G.natAbs < B ^ (s.h bd).size.natAbs :=
+    Nat.lt_of_le_of_lt (Nat.le_of_dvd (by omega) (Int.natAbs_dvd_natAbs.mpr hGbd)) (valOf_lt s bd Obd)
+  intro s'
+  simp only [s', mpq_aors]
+  -- :43-45
+  set A0 := min (s.SIZ ad).toNat (s.SIZ bd).toNat - 0 with hA0
+  set A1 := s.ABSIZ an + (s.SIZ bd).toNat with hA1
+  set A2 := s.ABSIZ bn + (s.SIZ ad).toNat with hA2
+  have hGltA0 : G.natAbs < B ^ A0 := by
+    rw [hA0, eda, edb]
+    rcases Nat.le_total (s.h ad).size.natAbs (s.h bd).size.natAbs with h | h
+    · rw [Nat.min_eq_left h]; exact hGlt_a
+    · rw [Nat.min_eq_right h]; exact hGlt_b
+  set s0 := tmpInit (tmpInit (tmpInit s g A0) t1 A1) t2 A2 with hs0
+  have ok0 : s0.ok = true := by simpa [s0] using hs
+  have F0 : ∀ x, x ≠ g → x ≠ t1 → x ≠ t2 → s0.h x = s.h x := by
+    intro x h1 h2 h3
+    rw [hs0, tmpInit_other _ _ _ h3, tmpInit_other _ _ _ h2, tmpInit_other _ _ _ h1]
+  have hg0 : s0.h g = ⟨0, 0, Buf.new A0⟩ := by
+    rw [hs0, tmpInit_other _ _ _ n13, tmpInit_other _ _ _ n12, tmpInit_same]
+  have ht10 : s0.h t1 = ⟨0, 0, Buf.new A1⟩ := by rw [hs0, tmpInit_other _ _ _ n23, tmpInit_same]
+  have ht20 : s0.h t2 = ⟨0, 0, Buf.new A2⟩ := by rw [hs0, tmpInit_same]
+  have hA0pos : 1 ≤ A0 := by rw [hA0, eda, edb]; omega
+  have Og : OWF (s0.h g) := by rw [hg0]; exact tmp_owf _ hA0pos
+  have Ot1 : OWF (s0.h t1) := by rw [ht10]; exact tmp_owf _ (by omega)
+  have Ot2 : OWF (s0.h t2) := by rw [ht20]; exact tmp_owf _ (by omega)
+  have I : ∀ x, x ≠ g → x ≠ t1 → x ≠ t2 → OWF (s.h x) → OWF (s0.h x) := fun x h1 h2 h3 h => by rw [F0 x h1 h2 h3]; exact h
+  have V0 : ∀ x, x ≠ g → x ≠ t1 → x ≠ t2 → valOf s0 x = valOf s x := by
+    intro x h1 h2 h3; unfold valOf; rw [F0 x h1 h2 h3]
+  have Ian := I an (by dq) (by dq) (by dq) Oan
+  have Iad := I ad (by dq) (by dq) (by dq) Oad
+  have Ibn := I bn (by dq) (by dq) (by dq) Obn
+  have Ibd := I bd (by dq) (by dq) (by dq) Obd
+  have Irn := I rn (by dq) (by dq) (by dq) Orn
+  have Ird := I rd (by dq) (by dq) (by dq) Ord
+  have van := V0 an (by dq) (by dq) (by dq)
+  have vad := V0 ad (by dq) (by dq) (by dq)
+  have vbn := V0 bn (by dq) (by dq) (by dq)
+  have vbd := V0 bd (by dq) (by dq) (by dq)
+  -- :52 gcd
+  have W1 := mpz_gcd_wrote s0 g ad bd ok0 Og
+  have hlen1 : (natLimbs (Int.gcd (valOf s0 ad) (valOf s0 bd))).length ≤ s0.ALLOC g := by
+    rw [vad, vbd]; simp only [St.ALLOC, hg0, Buf.new]
+    exact natLimbs_len_le _ _ hGltA0
+  have hk1 := mpz_gcd_gen_keep s0 g ad bd ok0 Og hlen1
+  have hal1 := mpz_gcd_alloc_keep s0 g ad bd hlen1
+  set s1 := mpz_gcd s0 g ad bd with hs1
+  have vg1 : valOf s1 g = G := by rw [W1.val, vad, vbd]; rfl
+  have q1 : tmpKept s1 g = s1 := tmpKept_eq _ _ (by rw [hk1, hg0])
+  have q1e : equal1 s1 g = (false, s1) := by
+    rw [equal1_spec s1 g W1.owf, vg1]; simp [hG1]
+  rw [q1, q1e]
+  simp only [Bool.not_false, if_true]
+  have K1 : ∀ x, OWF (s0.h x) → OWF (s1.h x) := fun x h => W1.owf_of x h
+  have H1 : ∀ x, x ≠ g → s1.h x = s0.h x := W1.frame
+  -- :57 tmp1 = den2 / gcd
+  have D2 := mpz_divexact_gcd_wrote' s1 t1 bd g W1.ok (K1 t1 Ot1) (K1 bd Ibd) W1.owf (by rw [vg1]; exact hGpos)
+    (by rw [vg1, W1.val_other bd (by dq), vbd]; exact hGbd)
+  have hroom2 : s1.ABSIZ bd ≤ s1.ALLOC t1 := by
+    simp only [St.ABSIZ, St.ALLOC, H1 bd (by dq), H1 t1 (by dq), F0 bd (by dq) (by dq) (by dq), ht10, Buf.new, hA1]; omega
+  have hk2 := D2.2 hroom2
+  have hal2 := mpz_divexact_gcd_alloc_keep s1 t1 bd g (size_ne_zero_of_pos s1 g (by rw [vg1]; exact hGpos)) hroom2
+  have W2 := D2.1
+  set s2 := mpz_divexact_gcd s1 t1 bd g with hs2
+  have q2 : tmpKept s2 t1 = s2 := tmpKept_eq _ _ (by rw [hk2, H1 t1 (by dq), ht10])
+  rw [q2]
+  have vt1_2 : valOf s2 t1 = Mpq.divexact (valOf s bd) G := by rw [W2.val, vg1, W1.val_other bd (by dq), vbd]; rfl
+  have al_t1_2 : (s2.h t1).buf.alloc = A1 := by rw [hal2, H1 t1 (by dq), ht10]; rfl
+  have K2 : ∀ x, OWF (s0.h x) → OWF (s2.h x) := fun x h => W2.owf_of x (K1 x h)
+  -- :58 tmp1 = num1 * tmp1
+  have hsz_t1 : (s2.h t1).size.natAbs ≤ (s.h bd).size.natAbs := by
+    apply absiz_le s2 t1 W2.owf
+    rw [vt1_2]
+    exact Nat.lt_of_le_of_lt (natAbs_div_le _ _ hGpos hGbd) (valOf_lt s bd Obd)
+  have hroom3 : (s2.SIZ an).natAbs + (s2.SIZ t1).natAbs ≤ s2.ALLOC t1 := by
+    simp only [St.SIZ, St.ALLOC, al_t1_2, W2.frame an (by dq), H1 an (by dq), F0 an (by dq) (by dq) (by dq), hA1, St.ABSIZ]
+    omega
+  have W3 := mpz_mul_wrote s2 t1 an t1 W2.ok W2.owf (K2 an Ian) W2.owf
+  have hk3 := mpz_mul_gen_keep s2 t1 an t1 hroom3 t1
+  have hal3 := mpz_mul_alloc_keep s2 t1 an t1 hroom3 t1
+  set s3 := mpz_mul s2 t1 an t1 with hs3
+  have q3 : tmpKept s3 t1 = s3 := tmpKept_eq _ _ (by rw [hk3, hk2, H1 t1 (by dq), ht10])
+  rw [q3]
+  have vt1_3 : valOf s3 t1 = valOf s an * Mpq.divexact (valOf s bd) G := by
+    rw [W3.val, vt1_2, W2.val_other an (by dq), W1.val_other an (by dq), van]
+  have K3 : ∀ x, OWF (s0.h x) → OWF (s3.h x) := fun x h => W3.owf_of x (K2 x h)
+  have vg3 : valOf s3 g = G := by rw [W3.val_other g (by dq), W2.val_other g (by dq), vg1]
+  have H3 : ∀ x, x ≠ g → x ≠ t1 → s3.h x = s0.h x := fun x h1 h2 => by
+    rw [W3.frame x h2, W2.frame x h2, H1 x h1]
+  -- :60 tmp2 = den1 / gcd
+  have vad3 : valOf s3 ad = valOf s ad := by unfold valOf; rw [H3 ad (by dq) (by dq), F0 ad (by dq) (by dq) (by dq)]
+  have D4 := mpz_divexact_gcd_wrote' s3 t2 ad g W3.ok (K3 t2 Ot2) (K3 ad Iad) (K3 g Og) (by rw [vg3]; exact hGpos)
+    (by rw [vg3, vad3]; exact hGad)
+  have hroom4 : s3.ABSIZ ad ≤ s3.ALLOC t2 := by
+    simp only [St.ABSIZ, St.ALLOC, H3 ad (by dq) (by dq), H3 t2 (by dq) (by dq), F0 ad (by dq) (by dq) (by dq), ht20, Buf.new, hA2]; omega
+  have hk4 := D4.2 hroom4
+  have hal4 := mpz_divexact_gcd_alloc_keep s3 t2 ad g (size_ne_zero_of_pos s3 g (by rw [vg3]; exact hGpos)) hroom4
+  have W4 := D4.1
+  set s4 := mpz_divexact_gcd s3 t2 ad g with hs4
+  have gen_t2_4 : (s4.h t2).gen = 0 := by rw [hk4, H3 t2 (by dq) (by dq), ht20]
+  have q4 : tmpKept s4 t2 = s4 := tmpKept_eq _ _ gen_t2_4
+  rw [q4]
+  have vt2_4 : valOf s4 t2 = Mpq.divexact (valOf s ad) G := by rw [W4.val, vg3, vad3]; rfl
+  have al_t2_4 : (s4.h t2).buf.alloc = A2 := by rw [hal4, H3 t2 (by dq) (by dq), ht20]; rfl
+  have K4 : ∀ x, OWF (s0.h x) → OWF (s4.h x) := fun x h => W4.owf_of x (K3 x h)
+  -- :61 tmp2 = num2 * tmp2
+  have hsz_t2 : (s4.h t2).size.natAbs ≤ (s.h ad).size.natAbs := by
+    apply absiz_le s4 t2 W4.owf
+    rw [vt2_4]
+    exact Nat.lt_of_le_of_lt (natAbs_div_le _ _ hGpos hGad) (valOf_lt s ad Oad)
+  have hroom5 : (s4.SIZ bn).natAbs + (s4.SIZ t2).natAbs ≤ s4.ALLOC t2 := by
+    simp only [St.SIZ, St.ALLOC, al_t2_4, W4.frame bn (by dq), H3 bn (by dq) (by dq), F0 bn (by dq) (by dq) (by dq), hA2, St.ABSIZ]
+    omega
+  have W5 := mpz_mul_wrote s4 t2 bn t2 W4.ok W4.owf (K4 bn Ibn) W4.owf
+  have hk5 := mpz_mul_gen_keep s4 t2 bn t2 hroom5 t2
+  have hal5 := mpz_mul_alloc_keep s4 t2 bn t2 hroom5 t2
+  set s5 := mpz_mul s4 t2 bn t2 with hs5
+  have gen_t2_5 : (s5.h t2).gen = 0 := by rw [hk5, gen_t2_4]
+  have q5 : tmpKept s5 t2 = s5 := tmpKept_eq _ _ gen_t2_5
+  rw [q5]
+  have vt2_5 : valOf s5 t2 = valOf s bn * Mpq.divexact (valOf s ad) G := by
+    rw [W5.val, vt2_4, W4.val_other bn (by dq)]
+    unfold valOf; rw [H3 bn (by dq) (by dq), F0 bn (by dq) (by dq) (by dq)]
+  have K5 : ∀ x, OWF (s0.h x) → OWF (s5.h x) := fun x h => W5.owf_of x (K4 x h)
+  have H5 : ∀ x, x ≠ g → x ≠ t1 → x ≠ t2 → s5.h x = s0.h x := fun x h1 h2 h3 => by
+    rw [W5.frame x h3, W4.frame x h3, H3 x h1 h2]
+  have vt1_5 : valOf s5 t1 = valOf s an * Mpq.divexact (valOf s bd) G := by
+    rw [W5.val_other t1 (by dq), W4.val_other t1 (by dq), vt1_3]
+  have vg5 : valOf s5 g = G := by rw [W5.val_other g (by dq), W4.val_other g (by dq), vg3]
+  -- :63 t
+  set A3 := max (s5.ABSIZ t1) (s5.ABSIZ t2) + 1 - 0 with hA3
+  set s6 := tmpInit s5 t A3 with hs6
+  have H6 : ∀ x, x ≠ t → s6.h x = s5.h x := fun x h => tmpInit_other _ _ _ h
+  have ht6 : s6.h t = ⟨0, 0, Buf.new A3⟩ := tmpInit_same _ _ _
+  have Ot6 : OWF (s6.h t) := by rw [ht6]; exact tmp_owf _ (by omega)
+  have K6 : ∀ x, x ≠ t → OWF (s0.h x) → OWF (s6.h x) := fun x h hx => by rw [H6 x h]; exact K5 x hx
+  have ok6 : s6.ok = true := by rw [hs6, tmpInit_ok]; exact W5.ok
+  -- :65 t = tmp1 ± tmp2
+  have W7 := zaors_wrote isSub s6 t t1 t2 ok6 Ot6 (K6 t1 (by dq) Ot1) (K6 t2 (by dq) Ot2)
+  have hk7 := zaors_gen_keep isSub s6 t t1 t2 (by
+    simp only [St.SIZ, St.ALLOC, H6 t1 (by dq), H6 t2 (by dq), ht6, Buf.new, hA3, St.ABSIZ]; omega) t
+  set s7 := zaors isSub s6 t t1 t2 with hs7
+  have q7 : tmpKept s7 t = s7 := tmpKept_eq _ _ (by rw [hk7, ht6])
+  rw [q7]
+  set T : Int := (if isSub then valOf s an * Mpq.divexact (valOf s bd) G - valOf s bn * Mpq.divexact (valOf s ad) G
+    else valOf s an * Mpq.divexact (valOf s bd) G + valOf s bn * Mpq.divexact (valOf s ad) G) with hT
+  have v6 : ∀ x, x ≠ t → valOf s6 x = valOf s5 x := fun x h => by unfold valOf; rw [H6 x h]
+  have vt7 : valOf s7 t = T := by
+    rw [W7.val, v6 t1 (by dq), v6 t2 (by dq), vt1_5, vt2_5]
+  have K7 : ∀ x, OWF (s6.h x) → OWF (s7.h x) := fun x h => W7.owf_of x h
+  have H7 : ∀ x, x ≠ g → x ≠ t1 → x ≠ t2 → x ≠ t → s7.h x = s0.h x := fun x h1 h2 h3 h4 => by
+    rw [W7.frame x h4, H6 x h4, H5 x h1 h2 h3]
+  have vg7 : valOf s7 g = G := by rw [W7.val_other g (by dq), v6 g (by dq), vg5]
+  have vad7 : valOf s7 ad = valOf s ad := by unfold valOf; rw [H7 ad (by dq) (by dq) (by dq) (by dq), F0 ad (by dq) (by dq) (by dq)]
+  -- :66 tmp2 = den1 / gcd
+  have Og7 : OWF (s7.h g) := K7 g (K6 g (by dq) Og)
+  have D8 := mpz_divexact_gcd_wrote' s7 t2 ad g W7.ok (K7 t2 (K6 t2 (by dq) Ot2)) (K7 ad (K6 ad (by dq) Iad)) Og7
+    (by rw [vg7]; exact hGpos) (by rw [vg7, vad7]; exact hGad)
+  have t2_7 : s7.h t2 = s5.h t2 := by rw [W7.frame t2 (by dq), H6 t2 (by dq)]
+  have hroom8 : s7.ABSIZ ad ≤ s7.ALLOC t2 := by
+    simp only [St.ABSIZ, St.ALLOC, t2_7, hal5, al_t2_4, H7 ad (by dq) (by dq) (by dq) (by dq), F0 ad (by dq) (by dq) (by dq), hA2]; omega
+  have hk8 := D8.2 hroom8
+  have W8 := D8.1
+  set s8 := mpz_divexact_gcd s7 t2 ad g with hs8
+  have q8 : tmpKept s8 t2 = s8 := tmpKept_eq _ _ (by rw [hk8, t2_7, gen_t2_5])
+  rw [q8]
+  have vt2_8 : valOf s8 t2 = Mpq.divexact (valOf s ad) G := by rw [W8.val, vg7, vad7]; rfl
+  have K8 : ∀ x, OWF (s6.h x) → OWF (s8.h x) := fun x h => W8.owf_of x (K7 x h)
+  -- :68 gcd = gcd (t, gcd)
+  have g8 : s8.h g = s1.h g := by
+    rw [W8.frame g (by dq), W7.frame g (by dq), H6 g (by dq), W5.frame g (by dq), W4.frame g (by dq), W3.frame g (by dq),
+      W2.frame g (by dq)]
+  have vg8 : valOf s8 g = G := by unfold valOf; rw [g8]; exact vg1
+  have vt8 : valOf s8 t = T := by rw [W8.val_other t (by dq), vt7]
+  have Og8 : OWF (s8.h g) := by rw [g8]; exact W1.owf
+  have W9 := mpz_gcd_wrote s8 g t g W8.ok Og8
+  have hlen9 : (natLimbs (Int.gcd (valOf s8 t) (valOf s8 g))).length ≤ s8.ALLOC g := by
+    rw [vg8]; simp only [St.ALLOC, g8, hal1, hg0, Buf.new]
+    exact gcd_len_le _ _ _ hGpos hGltA0
+  have hk9 := mpz_gcd_gen_keep s8 g t g W8.ok Og8 hlen9
+  set s9 := mpz_gcd s8 g t g with hs9
+  have q9 : tmpKept s9 g = s9 := tmpKept_eq _ _ (by rw [hk9, g8, hk1, hg0])
+  rw [q9]
+  set G' : Int := Mpq.zgcd T G with hG'
+  have vg9 : valOf s9 g = G' := by rw [W9.val, vt8, vg8]; rfl
+  have hG'pos : 0 < G' := by
+    show (0 : Int) < ((Int.gcd T G : Nat) : Int)
+    exact_mod_cast Int.gcd_pos_of_ne_zero_right _ (by omega)
+  have hG'T : G' ∣ T := Int.gcd_dvd_left _ _
+  have hG'G : G' ∣ G := Int.gcd_dvd_right _ _
+  rw [equal1_spec s9 g W9.owf, vg9]
+  simp only []
+  have K9 : ∀ x, OWF (s6.h x) → OWF (s9.h x) := fun x h => W9.owf_of x (K8 x h)
+  have H9 : ∀ x, x ≠ g → x ≠ t1 → x ≠ t2 → x ≠ t → s9.h x = s0.h x := fun x h1 h2 h3 h4 => by
+    rw [W9.frame x h1, W8.frame x h3, H7 x h1 h2 h3 h4]
+  have v9 : ∀ x, x ≠ g → x ≠ t1 → x ≠ t2 → x ≠ t → valOf s9 x = valOf s x := fun x h1 h2 h3 h4 => by
+    unfold valOf; rw [H9 x h1 h2 h3 h4, F0 x h1 h2 h3]
+  have vt9 : valOf s9 t = T := by rw [W9.val_other t (by dq), vt8]
+  have vt2_9 : valOf s9 t2 = Mpq.divexact (valOf s ad) G := by rw [W9.val_other t2 (by dq), vt2_8]
+  have Orn9 : OWF (s9.h rn) := K9 rn (K6 rn (by dq) Irn)
+  have Ord9 : OWF (s9.h rd) := K9 rd (K6 rd (by dq) Ird)
+  have Ot9 : OWF (s9.h t) := K9 t Ot6
+  have Ot29 : OWF (s9.h t2) := K9 t2 (K6 t2 (by dq) Ot2)
+  have Ot19 : OWF (s9.h t1) := K9 t1 (K6 t1 (by dq) Ot1)
+  have Obd9 : OWF (s9.h bd) := K9 bd (K6 bd (by dq) Ibd)
+  have Fr9 : ∀ x, x ≠ rn → x ≠ rd → x ∉ [g, t1, t2, t] → s9.h x = s.h x := by
+    intro x _ _ h3
+    simp only [List.mem_cons, List.not_mem_nil, or_false, not_or] at h3
+    obtain ⟨x1, x2, x3, x4⟩ := h3
+    rw [H9 x x1 x2 x3 x4, F0 x x1 x2 x3]
+  by_cases hone : G' = 1
+  · -- :71-72
+    simp only [hone, decide_true, if_true]
+    have W10 := mpz_set_wrote s9 rn t W9.ok Orn9 Ot9
+    have W11 := mpz_mul_wrote _ rd bd t2 W10.ok (W10.owf_of rd Ord9) (W10.owf_of bd Obd9) (W10.owf_of t2 Ot29)
+    refine ⟨W11.ok, W11.owf_of rn W10.owf, W11.owf, ?_, ?_, ?_⟩
+    · intro x h1 h2 h3
+      rw [W11.frame x h2, W10.frame x h1]; exact Fr9 x h1 h2 h3
+    · rw [W11.val_other rn hf, W10.val, vt9]
+      simp only [aorsNum, ← hGdef, ← hT, ← hG', hone, if_true]
+    · rw [W11.val, W10.val_other bd (by dq), W10.val_other t2 (by dq), v9 bd (by dq) (by dq) (by dq) (by dq), vt2_9]
+      simp only [aorsDen, ← hGdef, ← hT, ← hG', hone, if_true]
+  · -- :76-78
+    have hd : decide (G' = 1) = false := by simpa using hone
+    simp only [hd, Bool.false_eq_true, if_false]
+    have W10 := mpz_divexact_gcd_wrote s9 rn t g W9.ok Orn9 Ot9 W9.owf (by rw [vg9]; exact hG'pos) (by rw [vg9, vt9]; exact hG'T)
+    set s10 := mpz_divexact_gcd s9 rn t g with hs10
+    have vg10 : valOf s10 g = G' := by rw [W10.val_other g (by dq), vg9]
+    have vbd10 : valOf s10 bd = valOf s bd := by rw [W10.val_other bd (by dq), v9 bd (by dq) (by dq) (by dq) (by dq)]
+    have D11 := mpz_divexact_gcd_wrote' s10 t1 bd g W10.ok (W10.owf_of t1 Ot19) (W10.owf_of bd Obd9) (W10.owf_of g W9.owf)
+      (by rw [vg10]; exact hG'pos) (by rw [vg10, vbd10]; exact Int.dvd_trans hG'G hGbd)
+    have t1_10 : s10.h t1 = s3.h t1 := by
+      rw [W10.frame t1 (by dq), W9.frame t1 (by dq), W8.frame t1 (by dq), W7.frame t1 (by dq), H6 t1 (by dq), W5.frame t1 (by dq),
+        W4.frame t1 (by dq)]
+    have hroom11 : s10.ABSIZ bd ≤ s10.ALLOC t1 := by
+      simp only [St.ABSIZ, St.ALLOC, t1_10, hal3, al_t1_2, W10.frame bd (by dq), H9 bd (by dq) (by dq) (by dq) (by dq),
+        F0 bd (by dq) (by dq) (by dq), hA1]; omega
+    have hk11 := D11.2 hroom11
+    have W11 := D11.1
+    set s11 := mpz_divexact_gcd s10 t1 bd g with hs11
+    have q11 : tmpKept s11 t1 = s11 := tmpKept_eq _ _ (by rw [hk11, t1_10, hk3, hk2, H1 t1 (by dq), ht10])
+    rw [q11]
+    have W12 := mpz_mul_wrote s11 rd t1 t2 W11.ok (W11.owf_of rd (W10.owf_of rd Ord9)) W11.owf (W11.owf_of t2 (W10.owf_of t2 Ot29))
+    refine ⟨W12.ok, W12.owf_of rn (W11.owf_of rn W10.owf), W12.owf, ?_, ?_, ?_⟩
+    · intro x h1 h2 h3
+      have h3' := h3
+      simp only [List.mem_cons, List.not_mem_nil, or_false, not_or] at h3'
+      rw [W12.frame x h2, W11.frame x h3'.2.1, W10.frame x h1]; exact Fr9 x h1 h2 h3
+    · rw [W12.val_other rn hf, W11.val_other rn (by dq), W10.val, vt9, vg9]
+      simp only [aorsNum, ← hGdef, ← hT, ← hG', hone, if_false]; rfl
+    · rw [W12.val, W11.val, vbd10, vg10, W11.val_other t2 (by dq), W10.val_other t2 (by dq), vt2_9]
+      simp only [aorsDen, ← hGdef, ← hT, ← hG', hone, if_false]; rfl
+
+
+/-- mpq_add / mpq_sub (mpq/aors.c), BOTH arms, for every assignment of variable ids in which the two fields of rop differ,
+    NUM (rop) is not a denominator field of an operand and the four scratch ids (gcd, tmp1, tmp2, t) are fresh — this covers
+    rop == op1, rop == op2, op1 == op2, all equal and all distinct.  Operands well formed with positive denominators.
+    `ok` stays true (no access outside a block, no stale pointer, no TMP variable ever reallocated), NUM (rop) and DEN (rop) are
+    well formed, no other variable changes, and the values are those of the C12 value model `Mpq.aors`. -/
+theorem mpq_aors_alloc_safe (isSub : Bool) (s : St) (rn rd an ad bn bd g t1 t2 t : Nat) (hs : s.ok = true)
+    (hop : ∀ x ∈ [rn, rd, an, ad, bn, bd], OWF (s.h x))
+    (hf : rn ≠ rd) (hna : rn ≠ ad) (hnb : rn ≠ bd)
+    (hfr : Fresh [g, t1, t2, t] [rn, rd, an, ad, bn, bd])
+    (hda : 0 < valOf s ad) (hdb : 0 < valOf s bd) :
+    let s' := mpq_aors 0 0 isSub s rn rd an ad bn bd g t1 t2 t
+    s'.ok = true ∧ OWF (s'.h rn) ∧ OWF (s'.h rd) ∧
+    (∀ x, x ≠ rn → x ≠ rd → x ∉ [g, t1, t2, t] → s'.h x = s.h x) ∧
+    valOf s' rn = (if Int.gcd (valOf s ad) (valOf s bd) = 1 then
+        (if isSub then valOf s an * valOf s bd - valOf s bn * valOf s ad else valOf s an * valOf s bd + valOf s bn * valOf s ad)
+      else aorsNum isSub (valOf s an) (valOf s ad) (valOf s bn) (valOf s bd)) ∧
+    valOf s' rd = (if Int.gcd (valOf s ad) (valOf s bd) = 1 then valOf s ad * valOf s bd
+      else aorsDen isSub (valOf s an) (valOf s ad) (valOf s bn) (valOf s bd)) := by
+  intro s'
+  by_cases hco : Int.gcd (valOf s ad) (valOf s bd) = 1
+  · have hfr3 : Fresh [g, t1, t2] [rn, rd, an, ad, bn, bd] := by
+      obtain ⟨hN, hS⟩ := hfr
+      refine ⟨?_, fun x hx => hS x (by simp at hx ⊢; tauto)⟩
+      simp only [List.nodup_cons, List.mem_cons, List.not_mem_nil, or_false, not_or, List.nodup_nil, and_true,
+        not_false_eq_true] at hN ⊢
+      tauto
+    obtain ⟨h1, h2, h3, h4, h5, h6⟩ := mpq_aors_coprime_alloc_safe_partial isSub s rn rd an ad bn bd g t1 t2 t hs hop hf hna hnb hfr3 hda hdb hco
+    refine ⟨h1, h2, h3, ?_, by rw [if_pos hco]; exact h5, by rw [if_pos hco]; exact h6⟩
+    intro x x1 x2 x3
+    exact h4 x x1 x2 (by simp at x3 ⊢; tauto)
+  · obtain ⟨h1, h2, h3, h4, h5, h6⟩ := mpq_aors_common_alloc_safe isSub s rn rd an ad bn bd g t1 t2 t hs hop hf hna hnb hfr hda hdb hco
+    exact ⟨h1, h2, h3, h4, by rw [if_neg hco]; exact h5, by rw [if_neg hco]; exact h6⟩
+
+/-- mpq_add = mpq_aors with mpz_add (aors.c:94-98) -/
+theorem mpq_add_alloc_safe (s : St) (rn rd an ad bn bd g t1 t2 t : Nat) (hs : s.ok = true)
+    (hop : ∀ x ∈ [rn, rd, an, ad, bn, bd], OWF (s.h x)) (hf : rn ≠ rd) (hna : rn ≠ ad) (hnb : rn ≠ bd)
+    (hfr : Fresh [g, t1, t2, t] [rn, rd, an, ad, bn, bd]) (hda : 0 < valOf s ad) (hdb : 0 < valOf s bd) :
+    (mpq_add s rn rd an ad bn bd g t1 t2 t).ok = true ∧ OWF ((mpq_add s rn rd an ad bn bd g t1 t2 t).h rn) ∧
+    OWF ((mpq_add s rn rd an ad bn bd g t1 t2 t).h rd) ∧
+    (∀ x, x ≠ rn → x ≠ rd → x ∉ [g, t1, t2, t] → (mpq_add s rn rd an ad bn bd g t1 t2 t).h x = s.h x) :=
+  have h := mpq_aors_alloc_safe false s rn rd an ad bn bd g t1 t2 t hs hop hf hna hnb hfr hda hdb
+  ⟨h.1, h.2.1, h.2.2.1, h.2.2.2.1⟩
+
+/-- mpq_sub = mpq_aors with mpz_sub (aors.c:100-104) -/
+theorem mpq_sub_alloc_safe (s : St) (rn rd an ad bn bd g t1 t2 t : Nat) (hs : s.ok = true)
+    (hop : ∀ x ∈ [rn, rd, an, ad, bn, bd], OWF (s.h x)) (hf : rn ≠ rd) (hna : rn ≠ ad) (hnb : rn ≠ bd)
+    (hfr : Fresh [g, t1, t2, t] [rn, rd, an, ad, bn, bd]) (hda : 0 < valOf s ad) (hdb : 0 < valOf s bd) :
+    (mpq_sub s rn rd an ad bn bd g t1 t2 t).ok = true ∧ OWF ((mpq_sub s rn rd an ad bn bd g t1 t2 t).h rn) ∧
+    OWF ((mpq_sub s rn rd an ad bn bd g t1 t2 t).h rd) ∧
+    (∀ x, x ≠ rn → x ≠ rd → x ∉ [g, t1, t2, t] → (mpq_sub s rn rd an ad bn bd g t1 t2 t).h x = s.h x) :=
+  have h := mpq_aors_alloc_safe true s rn rd an ad bn bd g t1 t2 t hs hop hf hna hnb hfr hda hdb
+  ⟨h.1, h.2.1, h.2.2.1, h.2.2.2.1⟩
+
+-- non-vacuity of the common-divisor arm: the examples on `exa` above ((B-1)/2 + 1/2 = (B/2)/1; the second gcd is 2)
+example : aorsNum false ((B : Int) - 1) 2 1 2 = 2 ^ 63 ∧ aorsDen false ((B : Int) - 1) 2 1 2 = 1 := by decide +kernel
+
+/-! ## mpq_mul_2exp / mpq_div_2exp (mpq/md_2exp.c), non-zero arm: the skip loop proved (`skipZeros_spec`); the rest of mord_2exp
+    (MPZ_REALLOC (rdst, len), copy / shift arm, mpz_mul_2exp / mpz_set of the other field) is run only (ops as6_mul_2exp / as6_div_2exp).
+    Missing for `mpq_mul_2exp_alloc_safe`: the copy arm needs only `skipZeros_spec` + MPN_COPY range facts; the shift arm needs the
+    list-level fact that mpn_rshift by < 64 bits of a vector with non-zero top limb leaves at most one zero top limb. -/
+
+/-- 5/(3·B) in one variable (0, 1): the denominator has a whole zero low limb -/
+def ex2e : St := ⟨fun i => if i = 0 then ⟨1, 0, ⟨1, [5]⟩⟩ else ⟨2, 0, ⟨2, [0, 3]⟩⟩, true⟩
+
+-- in place, n = 64: the skip loop drops the zero limb (p = rsrc_ptr + 1), the limb 3 is odd, so the copy arm is taken and
+-- `p != rdst_ptr` (md_2exp.c:57) copies the limb down: 5/3
+example : (mpq_mul_2exp ex2e 0 1 0 1 64).ok = true ∧ view ((mpq_mul_2exp ex2e 0 1 0 1 64).h 1) = ⟨2, 1, [3]⟩ ∧
+    view ((mpq_mul_2exp ex2e 0 1 0 1 64).h 0) = ⟨1, 1, [5]⟩ := by decide
+-- negative (the defect repaired by commit 62c3bba): the test on the VARIABLES `rdst != rsrc` skips the copy — every access is
+-- in range, but the denominator is left as the one limb 0 with SIZ = 1: malformed
+example : (mord_2exp false ex2e 0 1 0 1 64).ok = true ∧ view ((mord_2exp false ex2e 0 1 0 1 64).h 1) = ⟨2, 1, [0]⟩ ∧
+    ¬ Mpz.WF (view ((mord_2exp false ex2e 0 1 0 1 64).h 1)) := by decide
+-- 5/(3·B) · 2^70 = 5·2^6/3: skip one limb, then the numerator is shifted left by the remaining 6 bits
+example : valOf (mpq_mul_2exp ex2e 0 1 0 1 70) 0 = 320 ∧ valOf (mpq_mul_2exp ex2e 0 1 0 1 70) 1 = 3 := by decide
+
+/-- the skip loop of mord_2exp (md_2exp.c:42-47) on a non-zero well-formed operand: every `*p` is inside the block (ok is
+    kept), it stops at a limb index k < ABSIZ — at the latest on the non-zero top limb —, with `plow = p[k]` and n reduced by 64·k -/
+theorem skipZeros_spec (s : St) (x : Nat) (hx : OWF (s.h x)) (h0 : (s.h x).size ≠ 0) :
+    ∀ (fuel k n : Nat) (s1 : St), s1.h = s.h → fuel + k = (s.h x).size.natAbs → k < (s.h x).size.natAbs →
+      let r := skipZeros s1 (s.PTR x) fuel k n ((s.h x).buf.limbs.getD k junk)
+      r.2.2.2.h = s.h ∧ r.2.2.2.ok = s1.ok ∧ k ≤ r.1 ∧ r.1 < (s.h x).size.natAbs ∧
+      r.2.2.1 = (s.h x).buf.limbs.getD r.1 junk ∧ r.2.1 + 64 * r.1 = n + 64 * k ∧ (r.2.1 < 64 ∨ r.2.2.1 % 2 = 1 ∨ r.2.2.1 ≠ 0) := by
+  have htop := top_ne_zero (s.h x) hx h0
+  have hfit : (s.h x).size.natAbs ≤ (s.h x).buf.alloc := view_fit hx
+  intro fuel
+  induction fuel with
+  | zero => intro k n s1 _ hk hlt; omega
+  | succ fuel ih =>
+    intro k n s1 hs1 hk hlt
+    simp only [skipZeros]
+    by_cases hc : (decide (n ≥ 64) && (s.h x).buf.limbs.getD k junk == 0) = true
+    · rw [if_pos hc]
+      simp only [Bool.and_eq_true, decide_eq_true_eq, beq_iff_eq] at hc
+      have hk1 : k + 1 < (s.h x).size.natAbs := by
+        by_contra hcon
+        have : k = (s.h x).size.natAbs - 1 := by omega
+        rw [this] at hc; exact htop hc.2
+      have hld : (s1.load (s.PTR x) (k + 1)).1 = (s.h x).buf.limbs.getD (k + 1) junk := by
+        simp only [St.load, St.rd, Buf.read, Ptr.add, St.PTR, hs1, Nat.zero_add]
+        rw [List.getD_eq_getElem?_getD]
+        cases hh : (s.h x).buf.limbs[k + 1]? with
+        | none => simp [List.getElem?_eq_none_iff] at hh; simp [List.drop_eq_nil_of_le hh]
+        | some a => 
+          have := List.getElem?_eq_some_iff.mp hh
+          obtain ⟨hl, ha⟩ := this
+          rw [List.drop_eq_getElem_cons hl]; simp [ha]
+      have hok : (s1.load (s.PTR x) (k + 1)).2.ok = s1.ok := by
+        simp only [St.load, chk_ok, St.rdOk, St.live, Buf.read, Ptr.add, St.PTR, hs1, Nat.zero_add]
+        have : k + 1 + 1 ≤ (s.h x).buf.alloc := by omega
+        simp [this]
+      have hh : (s1.load (s.PTR x) (k + 1)).2.h = s.h := by simp [St.load, hs1]
+      have := ih (k + 1) (n - 64) (s1.load (s.PTR x) (k + 1)).2 hh (by omega) hk1
+      simp only [hld] 
+      obtain ⟨r1, r2, r3, r4, r5, r6, r7⟩ := this
+      refine ⟨r1, by rw [r2, hok], by omega, r4, r5, by omega, r7⟩
+    · rw [if_neg hc]
+      refine ⟨hs1, rfl, Nat.le_refl _, hlt, rfl, rfl, ?_⟩
+      simp only [Bool.and_eq_true, decide_eq_true_eq, beq_iff_eq, not_and] at hc
+      by_cases hn : n ≥ 64
+      · right; right; exact hc hn
+      · left; show n < 64; omega
+
+
+-- on 3·B (limbs [0, 3]) with n = 70: one limb skipped, n left 6, plow = 3
+example : (skipZeros ex2e (ex2e.PTR 1) 2 0 70 0).1 = 1 ∧ (skipZeros ex2e (ex2e.PTR 1) 2 0 70 0).2.1 = 6 ∧
+    (skipZeros ex2e (ex2e.PTR 1) 2 0 70 0).2.2.1 = 3 := by decide
 
 end Mpir.AllocSafe6
